@@ -99,6 +99,9 @@ def _one(t):
     ws = bpa.analyse(mod, b['build'], lambda: (args(), regs()), max_worlds=64, max_steps=800000, gcache=ctx.gcache)
     oks, err = FC.ok_worlds(ws)
     if err:
+        df = FC.definite_fault(ws)
+        if df:
+            return [('violation', key + ':fault', '%s (payload %d, variant %d): %s' % (where, L, variant, df))], 0
         return [('undecided', key, '%s (payload %d, variant %d): %s' % (where, L, variant, err))], 0
     for w in oks:
         with FC.with_world(w.decisions):
